@@ -69,6 +69,8 @@ def build(tier, seed):
         return links.href_obligations(PROP, lambda: c16.search(("end_to_end",)))
     tasks = [a_task(PROP, _binding), a_task(PROP, _rebase), a_task(PROP, _one), a_task(PROP, _fil), a_task(PROP, _host), s_task(),
              Task(f"{PROP}.S.casefold.names", PROP, "comparisons of entity names", lambda: __import__("contracts.casefold", fromlist=["x"]).name_obligations(PROP, replay=lambda: c16.search(("declarations",)))),
+             __import__("contracts.C15", fromlist=["x"]).argparse_task(PROP, only=("externalize",), replay=lambda: c16.command_line_externalize()),
+             Task(f"{PROP}.S.load_external", PROP, "load_external_modules", lambda: external.one_bad_project_costs_only_its_own_links(PROP, lambda: c16.search(("broken",)))),
              Task(f"{PROP}.S.filter_public", PROP, "FortranCodeUnit.correlate", lambda: __import__("contracts.useassoc", fromlist=["x"]).filter_public_obligation(PROP, lambda: c16.search(("end_to_end",)))),
              Task(f"{PROP}.S.href", PROP, "FordLinkProcessor.convert_link", _href),
              Task(f"{PROP}.S.dict2obj", PROP, "dict2obj", lambda: external.dict2obj_constructs(PROP, lambda: c16.search(("same_names",)))),
